@@ -297,6 +297,21 @@ func c20Generate(r *simrt.Run) *c20Case {
 			}
 			totals[z].Add(totals[z], v)
 		}
+		if len(b.BalanceList) >= 2 && t.Choose(3) == 0 {
+			// the same address in several entries, one per token (the list carries no order and the
+			// balance check sums every entry)
+			zs := make([]types.ZenonTokenStandard, 0, len(b.BalanceList))
+			for z := range b.BalanceList {
+				zs = append(zs, z)
+			}
+			sort.Slice(zs, func(i, j int) bool { return bytes.Compare(zs[i][:], zs[j][:]) < 0 })
+			for _, z := range zs {
+				cfg.GenesisBlocks.Blocks = append(cfg.GenesisBlocks.Blocks, &genesis.GenesisBlockConfig{Address: a,
+					BalanceList: map[types.ZenonTokenStandard]*big.Int{z: b.BalanceList[z]}})
+			}
+			r.Probe("address-split-over-entries")
+			continue
+		}
 		cfg.GenesisBlocks.Blocks = append(cfg.GenesisBlocks.Blocks, b)
 	}
 	maxSupply := new(big.Int).SetUint64(4611686018427387903)
